@@ -141,6 +141,7 @@ def run(repo, rep, tier):
     rep.borrow(repo, "C04", {"R4.5": ("R1.11", "a + b and zero() of partial results reloaded from JSON keep what only ed() establishes (the result can be merged again)", 20)},
                keep=lambda f: f.construct.endswith(".__add__") or f.construct.endswith(".__iadd__") or f.construct.endswith(".zero"))
     rep.borrow(repo, "C02", {"R2.2": ("R1.12", "fill hands the caller's weight to exactly the specified slots: what one chunk records for a datum does not depend on which chunk the datum is in (additivity of fill over partitions)", 150)})
+    rep.borrow(repo, "C02", {"R2.4": ("R1.13", "what fill leaves in mean/variance for every (state class x datum class) pair - infinities of opposite sign included - is what merging the two one-datum partials leaves (single pass = merged chunks for non-finite data)", 80)})
     rep.borrow(repo, "C07", {"R7.2": ("R1.8", "combining partial results with += keeps the receiver (every __iadd__ returns self)", 19),
                              "R7.1": ("R1.9", "+= merges every content field the way + does", 50)})
     for c in prims:
@@ -153,6 +154,9 @@ def run(repo, rep, tier):
         if rf.result_cls is None or not (rf.result_cls is c):
             r1.ob(False)
             rep.finding("R1.1", add, add.node, f"__add__ does not construct a {c.name}", stmt="result class")
+        if m.name == "Bag":
+            from .c07 import keyed_merge_rule
+            keyed_merge_rule(rep, r1, c, add, "values", sn, on, rid="R1.1", what="`a + b`")
         for fld in m.acc + m.slots:
             labs = rf.fields.get(fld, frozenset())
             has_s = any(p == sn and f2 == fld and fv == "full" for (p, f2, fv, z) in labs)
